@@ -88,9 +88,9 @@ func VerifH_C17_cookie_on_real_handshake() {
 	if !verif.Symbolic() {
 		c.ps.On("drain", func(...any) { time.Sleep(60 * time.Millisecond) })
 	}
-	verif.PreemptBudget(1)
+	verif.SpawnBudget(1)
 	hs := c.request("GET", "")
-	verif.PreemptBudget(0)
+	verif.SpawnBudget(0)
 	if !verif.Symbolic() {
 		time.Sleep(150 * time.Millisecond)
 	}
